@@ -217,6 +217,9 @@ def run_jobs(jobs, parallel=None):
     parallel = parallel or NCPU
     with ThreadPoolExecutor(max_workers=parallel) as ex:
         list(ex.map(_run_one, jobs))
+    if os.environ.get("VERIF_VERBOSE"):
+        for j in jobs:
+            print("job %-28s %-5s wall=%6.1fs rc=%s %s" % (j.tag, j.variant, j.wall, j.rc, " ".join(j.args)))
     # a watchdog firing is re-run once, alone, before it is reported
     for j in jobs:
         if j.timed_out:
